@@ -12,7 +12,8 @@ closes the gap between the two on the machine itself:
   exactly the documented cycles of `Spec.doc…` (Spec/Z80Cycles.lean) in their timed view
   (`Spectrum.timedOf`, Spec/Z80Timed.lean), the documentation being read against the memory the CPU sees
   at the start (`ZX.cpuMem`), each operation stamped with the paging latch in force when it starts.
-* `step_tlog_*`: the same for one whole `emulate` (opcode fetches included).
+* `step_tlog_*`: the same for one whole `emulate` (opcode fetches included) at any boundary that accepts
+  no interrupt — instructions after EI/DI and after a parked DD/FD/ED prefix included.
 * `time_of_shape`: glue — any machine transition inside the bus closure whose log grew by the timed view
   of a cycle list takes the T-states of the list plus the property's delays along it.
 * `step_time_*`, `int_entry_time`, `exec_time_*`: **elapsed time of an instruction = documented T-states
@@ -136,63 +137,94 @@ theorem nmi_entry_tlog (s : Cpu) (z : ZX) :
   by_cases hh : s.halted = true <;>
     simp [acceptNmi, releaseHalt, hh, Spec.docNmi, Spec.returnAddress] <;> zx_simp
 
-/-! ## One whole `emulate` on the machine -/
+/-! ## One whole `emulate` on the machine
 
-/-- **A whole `emulate`, unprefixed instruction** (`Quiescent`: no interrupt accepted at this boundary):
-the machine's log grows by the 4-T opcode fetch at PC followed by the documented cycles. -/
-theorem step_tlog_unprefixed (v : Variant) (s : Cpu) (z : ZX) (hq : Quiescent s z)
+`decision s z = .none`: the interrupt check at the start of this `emulate` accepts nothing — no request
+pending, IFF1 clear, or held off by the preceding EI/DI/parked prefix (`decision_of_quiescent`,
+`decision_of_skip`). `body1 s` / `body2 s` (Spec/Z80Timed.lean): the CPU state in which the instruction
+body runs, one / two opcode-byte fetches later (PC behind the opcode, R counted, Q stepped). -/
+
+/-- **A whole `emulate`, unprefixed instruction:** the machine's log grows by the 4-T opcode fetch at PC
+followed by the documented cycles. -/
+theorem step_tlog_unprefixed (v : Variant) (s : Cpu) (z : ZX) (hd : decision s z = .none)
     (hap : s.activePrefix = .none) (hnp : (decode (z.cpuMem s.pc)).isPrefix = false) :
     (emulate v (s, z)).2.tlog =
       (timedOf z.ctl.port7ffd (emulate v (s, z)).2.ctl.port7ffd
-        (Spec.fetch4 s.pc ++
-          Spec.docMain .none (decode (z.cpuMem s.pc)) (stepQ { s with r := incR s.r, pc := s.pc + 1 })
-            z.cpuMem)).reverse ++ z.tlog := by
-  rw [emulate_quiescent v s z hq, execOne_unprefixed v s z hap hnp, tlog_shape_main]
+        (Spec.fetch4 s.pc ++ Spec.docMain .none (decode (z.cpuMem s.pc)) (body1 s) z.cpuMem)).reverse ++
+        z.tlog := by
+  rw [emulate_unprefixed v s z hd hap hnp, tlog_shape_main]
   simp [cpuMem_waitMreq, waitMreq_latch, waitMreq_tlog, Spec.fetch4, timedOf]
 
 /-- **A whole `emulate`, DD/FD-prefixed instruction:** two 4-T fetches, then the documented cycles of the
 indexed form. -/
-theorem step_tlog_indexed (v : Variant) (p : Pfx) (hp : p ≠ .none) (s : Cpu) (z : ZX) (hq : Quiescent s z)
-    (hap : s.activePrefix = .none) (h1 : z.cpuMem s.pc = pfxByte p)
+theorem step_tlog_indexed (v : Variant) (p : Pfx) (hp : p ≠ .none) (s : Cpu) (z : ZX)
+    (hd : decision s z = .none) (hap : s.activePrefix = .none) (h1 : z.cpuMem s.pc = pfxByte p)
     (hnp : (decode (z.cpuMem (s.pc + 1))).isPrefix = false) :
     (emulate v (s, z)).2.tlog =
       (timedOf z.ctl.port7ffd (emulate v (s, z)).2.ctl.port7ffd
         (Spec.fetch4 s.pc ++ Spec.fetch4 (s.pc + 1) ++
-          Spec.docMain p (decode (z.cpuMem (s.pc + 1)))
-            (stepQ { s with r := incR (incR s.r), pc := s.pc + 1 + 1 }) z.cpuMem)).reverse ++ z.tlog := by
-  rw [emulate_quiescent v s z hq, execOne_indexed v p hp s z hap h1 hnp, tlog_shape_main]
+          Spec.docMain p (decode (z.cpuMem (s.pc + 1))) (body2 s) z.cpuMem)).reverse ++ z.tlog := by
+  rw [emulate_indexed v p hp s z hd hap h1 hnp, tlog_shape_main]
   simp [cpuMem_waitMreq, waitMreq_latch, waitMreq_tlog, Spec.fetch4, timedOf]
 
 /-- **A whole `emulate`, ED page** (block repeats included). -/
-theorem step_tlog_ed (v : Variant) (s : Cpu) (z : ZX) (hq : Quiescent s z)
+theorem step_tlog_ed (v : Variant) (s : Cpu) (z : ZX) (hd : decision s z = .none)
     (hap : s.activePrefix = .none) (h1 : z.cpuMem s.pc = 0xED) :
     (emulate v (s, z)).2.tlog =
       (timedOf z.ctl.port7ffd (emulate v (s, z)).2.ctl.port7ffd
         (Spec.fetch4 s.pc ++ Spec.fetch4 (s.pc + 1) ++
-          Spec.docED (decodeED (z.cpuMem (s.pc + 1)))
-            (stepQ { s with r := incR (incR s.r), pc := s.pc + 1 + 1 }) z.cpuMem)).reverse ++ z.tlog := by
-  rw [emulate_quiescent v s z hq, execOne_ed v s z hap h1, tlog_shape_ed]
+          Spec.docED (decodeED (z.cpuMem (s.pc + 1))) (body2 s) z.cpuMem)).reverse ++ z.tlog := by
+  rw [emulate_ed v s z hd hap h1, tlog_shape_ed]
   simp [cpuMem_waitMreq, waitMreq_latch, waitMreq_tlog, Spec.fetch4, timedOf]
 
 /-- **A whole `emulate`, CB page.** -/
-theorem step_tlog_cb (v : Variant) (s : Cpu) (z : ZX) (hq : Quiescent s z)
+theorem step_tlog_cb (v : Variant) (s : Cpu) (z : ZX) (hd : decision s z = .none)
     (hap : s.activePrefix = .none) (h1 : z.cpuMem s.pc = 0xCB) :
     (emulate v (s, z)).2.tlog =
       (timedOf z.ctl.port7ffd (emulate v (s, z)).2.ctl.port7ffd
-        (Spec.fetch4 s.pc ++
-          Spec.docCB (stepQ { s with r := incR s.r, pc := s.pc + 1 }) z.cpuMem)).reverse ++ z.tlog := by
-  rw [emulate_quiescent v s z hq, execOne_cb v s z hap h1, tlog_shape_cb]
+        (Spec.fetch4 s.pc ++ Spec.docCB (body1 s) z.cpuMem)).reverse ++ z.tlog := by
+  rw [emulate_cb v s z hd hap h1, tlog_shape_cb]
   simp [cpuMem_waitMreq, waitMreq_latch, waitMreq_tlog, Spec.fetch4, timedOf]
 
 /-- **A whole `emulate`, DDCB/FDCB.** -/
-theorem step_tlog_ddcb (v : Variant) (p : Pfx) (hp : p ≠ .none) (s : Cpu) (z : ZX) (hq : Quiescent s z)
-    (hap : s.activePrefix = .none) (h1 : z.cpuMem s.pc = pfxByte p) (h2 : z.cpuMem (s.pc + 1) = 0xCB) :
+theorem step_tlog_ddcb (v : Variant) (p : Pfx) (hp : p ≠ .none) (s : Cpu) (z : ZX)
+    (hd : decision s z = .none) (hap : s.activePrefix = .none) (h1 : z.cpuMem s.pc = pfxByte p)
+    (h2 : z.cpuMem (s.pc + 1) = 0xCB) :
     (emulate v (s, z)).2.tlog =
       (timedOf z.ctl.port7ffd (emulate v (s, z)).2.ctl.port7ffd
-        (Spec.fetch4 s.pc ++ Spec.fetch4 (s.pc + 1) ++
-          Spec.docIdxCB p (stepQ { s with r := incR (incR s.r), pc := s.pc + 1 + 1 }) z.cpuMem)).reverse ++
+        (Spec.fetch4 s.pc ++ Spec.fetch4 (s.pc + 1) ++ Spec.docIdxCB p (body2 s) z.cpuMem)).reverse ++
         z.tlog := by
-  rw [emulate_quiescent v s z hq, execOne_ddcb v p hp s z hap h1 h2, tlog_shape_idxcb]
+  rw [emulate_ddcb v p hp s z hd hap h1 h2, tlog_shape_idxcb]
+  simp [cpuMem_waitMreq, waitMreq_latch, waitMreq_tlog, Spec.fetch4, timedOf]
+
+/-- **An `emulate` that starts with a parked DD/FD prefix** (the previous call fetched DD/FD and then another
+prefix byte): one 4-T fetch, then the documented cycles of the indexed form. -/
+theorem step_tlog_parked_indexed (v : Variant) (p : Pfx) (hp : p ≠ .none) (s : Cpu) (z : ZX)
+    (hd : decision s z = .none) (hap : s.activePrefix = parked p)
+    (hnp : (decode (z.cpuMem s.pc)).isPrefix = false) :
+    (emulate v (s, z)).2.tlog =
+      (timedOf z.ctl.port7ffd (emulate v (s, z)).2.ctl.port7ffd
+        (Spec.fetch4 s.pc ++ Spec.docMain p (decode (z.cpuMem s.pc)) (body1 s) z.cpuMem)).reverse ++
+        z.tlog := by
+  rw [emulate_parked_indexed v p hp s z hd hap hnp, tlog_shape_main]
+  simp [cpuMem_waitMreq, waitMreq_latch, waitMreq_tlog, Spec.fetch4, timedOf]
+
+/-- … parked DD/FD, then CB: the DDCB/FDCB cycles. -/
+theorem step_tlog_parked_ddcb (v : Variant) (p : Pfx) (hp : p ≠ .none) (s : Cpu) (z : ZX)
+    (hd : decision s z = .none) (hap : s.activePrefix = parked p) (h1 : z.cpuMem s.pc = 0xCB) :
+    (emulate v (s, z)).2.tlog =
+      (timedOf z.ctl.port7ffd (emulate v (s, z)).2.ctl.port7ffd
+        (Spec.fetch4 s.pc ++ Spec.docIdxCB p (body1 s) z.cpuMem)).reverse ++ z.tlog := by
+  rw [emulate_parked_ddcb v p hp s z hd hap h1, tlog_shape_idxcb]
+  simp [cpuMem_waitMreq, waitMreq_latch, waitMreq_tlog, Spec.fetch4, timedOf]
+
+/-- … parked ED (after DD ED / FD ED): the ED-page cycles. -/
+theorem step_tlog_parked_ed (v : Variant) (s : Cpu) (z : ZX) (hd : decision s z = .none)
+    (hap : s.activePrefix = .ed) :
+    (emulate v (s, z)).2.tlog =
+      (timedOf z.ctl.port7ffd (emulate v (s, z)).2.ctl.port7ffd
+        (Spec.fetch4 s.pc ++ Spec.docED (decodeED (z.cpuMem s.pc)) (body1 s) z.cpuMem)).reverse ++ z.tlog := by
+  rw [emulate_parked_ed v s z hd hap, tlog_shape_ed]
   simp [cpuMem_waitMreq, waitMreq_latch, waitMreq_tlog, Spec.fetch4, timedOf]
 
 /-- **A boundary that accepts the frame interrupt** first shows the acknowledge cycles in the log (the
@@ -221,5 +253,245 @@ theorem time_of_shape {z z' : ZX} (ht : C04Sys.Timed z z') (hg : C04Sys.Good z.c
   refine ⟨?_, g⟩
   rw [t, hd, List.reverse_reverse, C04Sys.specReplay_decomposes,
     timedOf_plain_sum C04Sys.plainClocks (fun _ _ => rfl) (fun _ => rfl) (fun _ => rfl)]
+
+/-- **Main page, after the opcode fetch(es):** time = T-states of the documented cycles + the ULA delays
+over exactly those cycles (`C03.tstates_main`: 4 + those T-states = the documented total). -/
+theorem exec_time_main (v : Variant) (p : Pfx) (i : Instr) (s : Cpu) (z : ZX) (hg : C04Sys.Good z.ctl) :
+    total (exec v p i s z).2.ctl = total z.ctl + Spec.tsum (Spec.docMain p i s z.cpuMem) +
+        C04Sys.delaysAlong z.ctl.kind (total z.ctl)
+          (timedOf z.ctl.port7ffd (exec v p i s z).2.ctl.port7ffd (Spec.docMain p i s z.cpuMem)) ∧
+    C04Sys.Good (exec v p i s z).2.ctl :=
+  time_of_shape (C04Sys.timed_closed.k_exec v p i s (C04Sys.timed_closed.refl z)) hg _ _ (tlog_shape_main v p i s z)
+
+/-- **ED page, after the two opcode fetches.** -/
+theorem exec_time_ed (i : EdInstr) (s : Cpu) (z : ZX) (hg : C04Sys.Good z.ctl) :
+    total (execED i s z).2.ctl = total z.ctl + Spec.tsum (Spec.docED i s z.cpuMem) +
+        C04Sys.delaysAlong z.ctl.kind (total z.ctl)
+          (timedOf z.ctl.port7ffd (execED i s z).2.ctl.port7ffd (Spec.docED i s z.cpuMem)) ∧
+    C04Sys.Good (execED i s z).2.ctl :=
+  time_of_shape (C04Sys.timed_closed.k_execED i s (C04Sys.timed_closed.refl z)) hg _ _ (tlog_shape_ed i s z)
+
+/-- **CB page, after the prefix fetch.** -/
+theorem exec_time_cb (s : Cpu) (z : ZX) (hg : C04Sys.Good z.ctl) :
+    total (execCB s z).2.ctl = total z.ctl + Spec.tsum (Spec.docCB s z.cpuMem) +
+        C04Sys.delaysAlong z.ctl.kind (total z.ctl)
+          (timedOf z.ctl.port7ffd (execCB s z).2.ctl.port7ffd (Spec.docCB s z.cpuMem)) ∧
+    C04Sys.Good (execCB s z).2.ctl :=
+  time_of_shape (C04Sys.timed_closed.k_execCB s (C04Sys.timed_closed.refl z)) hg _ _ (tlog_shape_cb s z)
+
+/-- **DDCB/FDCB, after the two prefix fetches.** -/
+theorem exec_time_idxcb (p : Pfx) (s : Cpu) (z : ZX) (hg : C04Sys.Good z.ctl) :
+    total (execIdxCB p s z).2.ctl = total z.ctl + Spec.tsum (Spec.docIdxCB p s z.cpuMem) +
+        C04Sys.delaysAlong z.ctl.kind (total z.ctl)
+          (timedOf z.ctl.port7ffd (execIdxCB p s z).2.ctl.port7ffd (Spec.docIdxCB p s z.cpuMem)) ∧
+    C04Sys.Good (execIdxCB p s z).2.ctl :=
+  time_of_shape (C04Sys.timed_closed.k_execIdxCB p s (C04Sys.timed_closed.refl z)) hg _ _ (tlog_shape_idxcb p s z)
+
+/-- **Interrupt entry on the machine takes 13 (IM 0/1) or 19 (IM 2) T-states plus the ULA delays** of its
+stack writes (and vector reads), wherever the stack and the vector table lie and whenever in the frame
+it happens. -/
+theorem int_entry_time (s : Cpu) (z : ZX) (hg : C04Sys.Good z.ctl) :
+    total (acceptInt s z).2.ctl = total z.ctl + (if s.im = 2 then 19 else 13) +
+        C04Sys.delaysAlong z.ctl.kind (total z.ctl)
+          (timedOf z.ctl.port7ffd z.ctl.port7ffd
+            (if s.im = 2 then Spec.docInt2 s (mk16 s.i 0xFF) else Spec.docInt01 s)) ∧
+    C04Sys.Good (acceptInt s z).2.ctl := by
+  obtain ⟨t, g⟩ := time_of_shape (C04Sys.timed_closed.k_acceptInt s (C04Sys.timed_closed.refl z)) hg _ _
+    (int_entry_tlog s z)
+  refine ⟨?_, g⟩
+  rw [t]
+  split
+  · rw [(C03.int_entry_T s (mk16 s.i 0xFF) 0).2.1]
+  · rw [(C03.int_entry_T s 0 0).1]
+
+/-- … and so does the interrupt check of an `emulate` that accepts the frame interrupt. -/
+theorem interrupt_step_time (s : Cpu) (z : ZX) (hg : C04Sys.Good z.ctl) (h : decision s z = .int) :
+    total (checkInterrupt s z).2.ctl = total z.ctl + (if s.im = 2 then 19 else 13) +
+        C04Sys.delaysAlong z.ctl.kind (total z.ctl)
+          (timedOf z.ctl.port7ffd z.ctl.port7ffd
+            (if s.im = 2 then Spec.docInt2 s (mk16 s.i 0xFF) else Spec.docInt01 s)) ∧
+    C04Sys.Good (checkInterrupt s z).2.ctl := by
+  rw [checkInterrupt_eq_decision, h]; exact int_entry_time s z hg
+
+/-- **C04 per instruction, unprefixed page.** One `emulate` of any non-prefix instruction, at any frame
+T-state of either machine, in any `Good` state (paging as it may be; no interrupt accepted at this
+boundary): elapsed time = the documented T-states of the instruction (timing variant chosen by the
+documented condition) + the sum of the property's ULA delays over exactly its documented cycles — the
+opcode fetch and each read, write, delay T-state and port cycle, each looked up at the T-state at which
+it starts. -/
+theorem step_time_unprefixed (v : Variant) (s : Cpu) (z : ZX) (hg : C04Sys.Good z.ctl)
+    (hd : decision s z = .none) (hap : s.activePrefix = .none)
+    (hnp : (decode (z.cpuMem s.pc)).isPrefix = false) :
+    total (emulate v (s, z)).2.ctl =
+      total z.ctl +
+        Spec.docTMain .none (decode (z.cpuMem s.pc)) (Spec.takenMain (decode (z.cpuMem s.pc)) (body1 s)) +
+        C04Sys.delaysAlong z.ctl.kind (total z.ctl)
+          (timedOf z.ctl.port7ffd (emulate v (s, z)).2.ctl.port7ffd
+            (Spec.fetch4 s.pc ++ Spec.docMain .none (decode (z.cpuMem s.pc)) (body1 s) z.cpuMem)) ∧
+    C04Sys.Good (emulate v (s, z)).2.ctl := by
+  obtain ⟨t, g⟩ := time_of_shape (C04Sys.timed_closed.emulate v s z) hg _ _ (step_tlog_unprefixed v s z hd hap hnp)
+  refine ⟨?_, g⟩
+  rw [t, tsum_append, tsum_fetch4, ← C03.tstates_main .none _ _ z.cpuMem hnp]
+
+/-- **C04 per instruction, DD/FD forms:** 4 T for the prefix fetch + the documented T-states of the indexed
+form + the ULA delays over the two fetches and the documented cycles. -/
+theorem step_time_indexed (v : Variant) (p : Pfx) (hp : p ≠ .none) (s : Cpu) (z : ZX) (hg : C04Sys.Good z.ctl)
+    (hd : decision s z = .none) (hap : s.activePrefix = .none) (h1 : z.cpuMem s.pc = pfxByte p)
+    (hnp : (decode (z.cpuMem (s.pc + 1))).isPrefix = false) :
+    total (emulate v (s, z)).2.ctl =
+      total z.ctl +
+        (4 + Spec.docTMain p (decode (z.cpuMem (s.pc + 1)))
+          (Spec.takenMain (decode (z.cpuMem (s.pc + 1))) (body2 s))) +
+        C04Sys.delaysAlong z.ctl.kind (total z.ctl)
+          (timedOf z.ctl.port7ffd (emulate v (s, z)).2.ctl.port7ffd
+            (Spec.fetch4 s.pc ++ Spec.fetch4 (s.pc + 1) ++
+              Spec.docMain p (decode (z.cpuMem (s.pc + 1))) (body2 s) z.cpuMem)) ∧
+    C04Sys.Good (emulate v (s, z)).2.ctl := by
+  obtain ⟨t, g⟩ := time_of_shape (C04Sys.timed_closed.emulate v s z) hg _ _
+    (step_tlog_indexed v p hp s z hd hap h1 hnp)
+  refine ⟨?_, g⟩
+  rw [t, tsum_append, tsum_append, tsum_fetch4, tsum_fetch4, ← C03.tstates_main p _ _ z.cpuMem hnp]
+  omega
+
+/-- **C04 per instruction, ED page** — 21 vs 16 for every iteration of the block instructions. -/
+theorem step_time_ed (v : Variant) (s : Cpu) (z : ZX) (hg : C04Sys.Good z.ctl) (hd : decision s z = .none)
+    (hap : s.activePrefix = .none) (h1 : z.cpuMem s.pc = 0xED) :
+    total (emulate v (s, z)).2.ctl =
+      total z.ctl +
+        Spec.docTED (decodeED (z.cpuMem (s.pc + 1)))
+          (Spec.repeats (decodeED (z.cpuMem (s.pc + 1))) (body2 s) z.cpuMem) +
+        C04Sys.delaysAlong z.ctl.kind (total z.ctl)
+          (timedOf z.ctl.port7ffd (emulate v (s, z)).2.ctl.port7ffd
+            (Spec.fetch4 s.pc ++ Spec.fetch4 (s.pc + 1) ++
+              Spec.docED (decodeED (z.cpuMem (s.pc + 1))) (body2 s) z.cpuMem)) ∧
+    C04Sys.Good (emulate v (s, z)).2.ctl := by
+  obtain ⟨t, g⟩ := time_of_shape (C04Sys.timed_closed.emulate v s z) hg _ _ (step_tlog_ed v s z hd hap h1)
+  refine ⟨?_, g⟩
+  rw [t, tsum_append, tsum_append, tsum_fetch4, tsum_fetch4, ← C03.repeat_T]
+
+/-- **C04 per instruction, CB page:** 8 / 12 / 15 + delays. -/
+theorem step_time_cb (v : Variant) (s : Cpu) (z : ZX) (hg : C04Sys.Good z.ctl) (hd : decision s z = .none)
+    (hap : s.activePrefix = .none) (h1 : z.cpuMem s.pc = 0xCB) :
+    total (emulate v (s, z)).2.ctl =
+      total z.ctl + Spec.docTCB (decodeCB (z.cpuMem (s.pc + 1))) +
+        C04Sys.delaysAlong z.ctl.kind (total z.ctl)
+          (timedOf z.ctl.port7ffd (emulate v (s, z)).2.ctl.port7ffd
+            (Spec.fetch4 s.pc ++ Spec.docCB (body1 s) z.cpuMem)) ∧
+    C04Sys.Good (emulate v (s, z)).2.ctl := by
+  obtain ⟨t, g⟩ := time_of_shape (C04Sys.timed_closed.emulate v s z) hg _ _ (step_tlog_cb v s z hd hap h1)
+  refine ⟨?_, g⟩
+  have hT : 4 + Spec.tsum (Spec.docCB (body1 s) z.cpuMem) = Spec.docTCB (decodeCB (z.cpuMem (s.pc + 1))) :=
+    C03.cb_T (body1 s) z.cpuMem
+  rw [t, tsum_append, tsum_fetch4, hT]
+
+/-- **C04 per instruction, DDCB/FDCB:** 20 (BIT) / 23 + delays. -/
+theorem step_time_ddcb (v : Variant) (p : Pfx) (hp : p ≠ .none) (s : Cpu) (z : ZX) (hg : C04Sys.Good z.ctl)
+    (hd : decision s z = .none) (hap : s.activePrefix = .none) (h1 : z.cpuMem s.pc = pfxByte p)
+    (h2 : z.cpuMem (s.pc + 1) = 0xCB) :
+    total (emulate v (s, z)).2.ctl =
+      total z.ctl + Spec.docTIdxCB (decodeCB (z.cpuMem (s.pc + 1 + 1 + 1))) +
+        C04Sys.delaysAlong z.ctl.kind (total z.ctl)
+          (timedOf z.ctl.port7ffd (emulate v (s, z)).2.ctl.port7ffd
+            (Spec.fetch4 s.pc ++ Spec.fetch4 (s.pc + 1) ++ Spec.docIdxCB p (body2 s) z.cpuMem)) ∧
+    C04Sys.Good (emulate v (s, z)).2.ctl := by
+  obtain ⟨t, g⟩ := time_of_shape (C04Sys.timed_closed.emulate v s z) hg _ _
+    (step_tlog_ddcb v p hp s z hd hap h1 h2)
+  refine ⟨?_, g⟩
+  have hT : 8 + Spec.tsum (Spec.docIdxCB p (body2 s) z.cpuMem) =
+      Spec.docTIdxCB (decodeCB (z.cpuMem (s.pc + 1 + 1 + 1))) := C03.ddcb_T p (body2 s) z.cpuMem
+  rw [t, tsum_append, tsum_append, tsum_fetch4, tsum_fetch4, ← hT]
+
+/-- **Parked DD/FD prefix:** the `emulate` that runs the instruction takes its documented T-states (the
+4 T of the prefix were spent in the previous call) + the delays over its own fetch and cycles. -/
+theorem step_time_parked_indexed (v : Variant) (p : Pfx) (hp : p ≠ .none) (s : Cpu) (z : ZX)
+    (hg : C04Sys.Good z.ctl) (hd : decision s z = .none) (hap : s.activePrefix = parked p)
+    (hnp : (decode (z.cpuMem s.pc)).isPrefix = false) :
+    total (emulate v (s, z)).2.ctl =
+      total z.ctl +
+        Spec.docTMain p (decode (z.cpuMem s.pc)) (Spec.takenMain (decode (z.cpuMem s.pc)) (body1 s)) +
+        C04Sys.delaysAlong z.ctl.kind (total z.ctl)
+          (timedOf z.ctl.port7ffd (emulate v (s, z)).2.ctl.port7ffd
+            (Spec.fetch4 s.pc ++ Spec.docMain p (decode (z.cpuMem s.pc)) (body1 s) z.cpuMem)) ∧
+    C04Sys.Good (emulate v (s, z)).2.ctl := by
+  obtain ⟨t, g⟩ := time_of_shape (C04Sys.timed_closed.emulate v s z) hg _ _
+    (step_tlog_parked_indexed v p hp s z hd hap hnp)
+  refine ⟨?_, g⟩
+  rw [t, tsum_append, tsum_fetch4, ← C03.tstates_main p _ _ z.cpuMem hnp]
+
+/-- … parked DD/FD then CB: with the 4 T of the parked prefix the documented 20 / 23 + delays. -/
+theorem step_time_parked_ddcb (v : Variant) (p : Pfx) (hp : p ≠ .none) (s : Cpu) (z : ZX)
+    (hg : C04Sys.Good z.ctl) (hd : decision s z = .none) (hap : s.activePrefix = parked p)
+    (h1 : z.cpuMem s.pc = 0xCB) :
+    4 + total (emulate v (s, z)).2.ctl =
+      total z.ctl + Spec.docTIdxCB (decodeCB (z.cpuMem (s.pc + 1 + 1))) +
+        C04Sys.delaysAlong z.ctl.kind (total z.ctl)
+          (timedOf z.ctl.port7ffd (emulate v (s, z)).2.ctl.port7ffd
+            (Spec.fetch4 s.pc ++ Spec.docIdxCB p (body1 s) z.cpuMem)) ∧
+    C04Sys.Good (emulate v (s, z)).2.ctl := by
+  obtain ⟨t, g⟩ := time_of_shape (C04Sys.timed_closed.emulate v s z) hg _ _
+    (step_tlog_parked_ddcb v p hp s z hd hap h1)
+  refine ⟨?_, g⟩
+  have hT : 8 + Spec.tsum (Spec.docIdxCB p (body1 s) z.cpuMem) =
+      Spec.docTIdxCB (decodeCB (z.cpuMem (s.pc + 1 + 1))) := C03.ddcb_T p (body1 s) z.cpuMem
+  rw [t, tsum_append, tsum_fetch4, ← hT]
+  omega
+
+/-- … parked ED: with the 4 T of the parked prefix the documented ED-page T-states + delays. -/
+theorem step_time_parked_ed (v : Variant) (s : Cpu) (z : ZX) (hg : C04Sys.Good z.ctl)
+    (hd : decision s z = .none) (hap : s.activePrefix = .ed) :
+    4 + total (emulate v (s, z)).2.ctl =
+      total z.ctl +
+        Spec.docTED (decodeED (z.cpuMem s.pc)) (Spec.repeats (decodeED (z.cpuMem s.pc)) (body1 s) z.cpuMem) +
+        C04Sys.delaysAlong z.ctl.kind (total z.ctl)
+          (timedOf z.ctl.port7ffd (emulate v (s, z)).2.ctl.port7ffd
+            (Spec.fetch4 s.pc ++ Spec.docED (decodeED (z.cpuMem s.pc)) (body1 s) z.cpuMem)) ∧
+    C04Sys.Good (emulate v (s, z)).2.ctl := by
+  obtain ⟨t, g⟩ := time_of_shape (C04Sys.timed_closed.emulate v s z) hg _ _ (step_tlog_parked_ed v s z hd hap)
+  refine ⟨?_, g⟩
+  rw [t, tsum_append, tsum_fetch4, ← C03.repeat_T]
+  omega
+
+/-- On a 48K machine, and on a 128K machine whose paging lock is set, the latch stamped on the cycles
+that follow a port write (`l1` above) is the latch the instruction started with: no port write moves it
+(`C06Sys.lockKept_closed`). -/
+theorem step_latch_locked (v : Variant) (s : Cpu) (z : ZX) (hl : z.ctl.pagingEnabled = false) :
+    (emulate v (s, z)).2.ctl.port7ffd = z.ctl.port7ffd :=
+  (C06Sys.lockKept_closed.emulate v s z hl).2.1
+
+/-! ## Non-vacuity -/
+
+/-- a 48K machine at the first contended T-state of the frame (14335) with `LD A,(HL)` (0x7E) at 0x8000
+(uncontended RAM) and at 0x4000 (contended RAM) -/
+def exampleZX : ZX :=
+  { ZX.new .k48 false false with
+    ctl := { Ctl.new .k48 with
+      frameClocks := 14335
+      mem := { Mem.new .k48 with ram := fun p o => if (p = 1 ∨ p = 0) ∧ o = 0 then 0x7E else 0 } } }
+
+/-- HL = 0x4001: the operand lies in contended RAM -/
+def exampleCpu (pc : BitVec 16) : Cpu := { pc := pc, h := 0x40, l := 0x01 }
+
+/-- the hypotheses of `step_time_unprefixed` hold in that state, the instruction is `LD A,(HL)` -/
+example : C04Sys.Good exampleZX.ctl ∧ decision (exampleCpu 0x8000) exampleZX = .none ∧
+    (exampleCpu 0x8000).activePrefix = .none ∧
+    decode (exampleZX.cpuMem (exampleCpu 0x8000).pc) = .ld .a .m ∧
+    (decode (exampleZX.cpuMem (exampleCpu 0x8000).pc)).isPrefix = false :=
+  ⟨⟨by decide, Or.inl ⟨rfl, rfl, rfl⟩⟩, by decide, rfl, by decide, by decide⟩
+
+/-- … and its right-hand side is 7 documented T-states + 2 T-states of delay: the fetch from 0x8000 is not
+delayed, the read at HL = 0x4001 starts at T = 14339 = T0 + 4 and waits 2 -/
+example :
+    Spec.docTMain .none (decode (exampleZX.cpuMem 0x8000))
+      (Spec.takenMain (decode (exampleZX.cpuMem 0x8000))
+        (body1 (exampleCpu 0x8000))) = 7 ∧
+    C04Sys.delaysAlong .k48 14335 (timedOf 0 0 (Spec.fetch4 0x8000 ++
+      Spec.docMain .none (decode (exampleZX.cpuMem 0x8000))
+        (body1 (exampleCpu 0x8000)) exampleZX.cpuMem)) = 2 := by decide
+
+/-- the machine agrees: 7 + 2 with the code in uncontended RAM; with the code in contended RAM as well the
+fetch at T0 waits 6 and the read (now at T0 + 10) waits 4 -/
+example :
+    total (step (exampleCpu 0x8000, exampleZX)).2.ctl = total exampleZX.ctl + 7 + 2 ∧
+    total (step (exampleCpu 0x4000, exampleZX)).2.ctl = total exampleZX.ctl + 7 + (6 + 4) := by decide
 
 end ZxVerif.C03Sys
